@@ -8,6 +8,7 @@ import z3
 
 from pyvc import ext_C15 as X
 from pyvc.ext_C15 import DEPTH, NTOK, TTYPE, TUP, TVAL, tokref
+from pyvc.spec import SpecFn
 from pyvc.values import Obj, Sym, fresh, fresh_name, to_z3
 
 X.install()
@@ -32,6 +33,14 @@ def parser_obj(S):
 
 def cur(v):
     return to_z3(v["self"].fields["lexer"].fields["g_cur"], "int")
+
+
+def _remaining(eng, args, kwargs):
+    c = to_z3(args[0].fields["lexer"].fields["g_cur"], "int")
+    return Sym(z3.If(c < NTOK, NTOK - c, z3.IntVal(0)), "int")
+
+
+REMAINING = {"remaining": SpecFn(_remaining, "remaining")}  # tokens not yet consumed (loop variants)
 
 
 def nxt(v):
@@ -175,7 +184,7 @@ def register_leaves(R):
                    ("returns-the-consumed-token", lambda E, v, o: to_z3(v["result"], "oref") == nxt(o))])
 
     # ------------------------------------------------------------ _parse_node
-    SR = lambda S: dict(self=parser_obj(S), root=fresh("ref", "root"))
+    SR = lambda S: dict(self=parser_obj(S), root=fresh("ref", "root"), __ghost__=REMAINING)
 
     def point_shape(E, v, o):
         c = cur(o)
@@ -249,7 +258,8 @@ def register_leaves(R):
                    ("stops-at-EOF-or-a-non-comment", lambda E, v, o: z3.Or(cur(v) >= NTOK, TTYPE(cur(v)) != T("COMMENT"))),
                    ("adds-only-COMMENT-leaves-below-root", only_comment_leaves)],
           loops={0: dict(invariant=[WF, FRAME, TIP_KEPT, ("run-so-far", comments_run), ("only-comment-leaves-so-far", only_comment_leaves),
-                                    ("root-still-valid", lambda E, v, o: z3.And(to_z3(v["root"], "ref") == to_z3(o["root"], "ref")))])})
+                                    ("root-still-valid", lambda E, v, o: z3.And(to_z3(v["root"], "ref") == to_z3(o["root"], "ref")))],
+                         decreases="remaining(self)")})
 
 
 # ---------------------------------------------------------------------------
@@ -288,7 +298,7 @@ def register_core(R):
 
     sub_floor = ("never-below-own-level", lambda E, v, o: z3.And(cur(v) >= cur(o), depth_floor(cur(o), cur(v), level(o))))
     R.add(P + "_parse_subtree", prop="C15",
-          setup=lambda S: dict(self=parser_obj(S), root=fresh("ref", "root"), opened=S.bool("opened")),
+          setup=lambda S: dict(self=parser_obj(S), root=fresh("ref", "root"), opened=S.bool("opened"), __ghost__=REMAINING),
           requires=[WF, valid_node("root")], modifies=["self"], raises=REJ,
           lemmas=[lambda E, fr: fr.vars["self"].fields.__setitem__("g_tip", fr.vars["root"])],  # ghost: a branch starts with its root as tip
           ghost_exit=lambda E, v, o: v["self"].fields.__setitem__("g_tip", o["self"].fields["g_tip"]),  # ghost: leaving the branch restores the tip
@@ -296,7 +306,8 @@ def register_core(R):
                    ("stops-at-unconsumed-close-or-bar-of-its-own-level-or-EOF", sub_stop), sub_floor],
           loops={0: dict(invariant=[WF, FRAME, new_hang_below("root"), sub_floor,
                                     ("depth-is-own-level-plus-pending-open", lambda E, v, o: DEPTH(cur(v)) == level(o) + b2i(v["opened"])),
-                                    ("current-is-the-branch-tip", current_ok)])},
+                                    ("current-is-the-branch-tip", current_ok)],
+                         decreases="remaining(self)")},
           notes="abstract token stream + abstract AST heap; mutual recursion with _parse_split handled by the modular rule (partial correctness)")
 
     # ------------------------------------------------------------ _parse_split
@@ -304,19 +315,23 @@ def register_core(R):
         c0, c1 = cur(o), cur(v)
         return z3.And(c1 > c0, c1 <= NTOK, is_t(c1 - 1, "BRACKET_RIGHT"), DEPTH(c1) == DEPTH(c0) - 1, depth_floor(c0, c1 - 1, DEPTH(c0)))
 
-    R.add(P + "_parse_split", prop="C15", setup=lambda S: dict(self=parser_obj(S), root=fresh("ref", "root")),
+    R.add(P + "_parse_split", prop="C15", setup=lambda S: dict(self=parser_obj(S), root=fresh("ref", "root"), __ghost__=REMAINING),
           requires=[WF, valid_node("root"), ("split-hangs-at-the-branch-tip", lambda E, v, o: to_z3(v["root"], "ref") == tip(v))],
           modifies=["self"], raises=REJ,
           ensures=[WF, FRAME, TIP_KEPT, new_hang_below("root"),
                    ("returns-just-after-the-close-that-matches-its-open", split_closed)],
           loops={0: dict(invariant=[WF, FRAME, TIP_KEPT, new_hang_below("root"),
                                     ("depth-is-split-level-plus-pending-open", lambda E, v, o: DEPTH(cur(v)) == DEPTH(cur(o)) + b2i(v["opened"])),
-                                    ("never-below-split-level", lambda E, v, o: z3.And(cur(v) >= cur(o), depth_floor(cur(o), cur(v), DEPTH(cur(o)))))])})
+                                    ("never-below-split-level", lambda E, v, o: z3.And(cur(v) >= cur(o), depth_floor(cur(o), cur(v), DEPTH(cur(o)))))],
+                         decreases="remaining(self)")})
 
     # ------------------------------------------------------------- _parse_tree
     def tree_node(E, v, o):
         nd, c = H(o, "n") + 1, cur(o)
-        return z3.And(H(v, "n") >= nd, z3.Select(H(v, "kind"), nd) == X.at("TREE"), z3.Select(H(v, "label"), nd) == TUP(c),
+        j = z3.Int(fresh_name("j"))
+        pj = z3.Select(H(v, "par"), j)
+        below = z3.ForAll([j], z3.Implies(z3.And(j > nd, j <= H(v, "n")), z3.And(pj >= nd, pj <= H(v, "n"))))  # everything else hangs below the TREE node
+        return z3.And(below, H(v, "n") >= nd, z3.Select(H(v, "kind"), nd) == X.at("TREE"), z3.Select(H(v, "label"), nd) == TUP(c),
                       z3.Select(H(v, "par"), nd) == to_z3(o["root"], "ref"), in_stream(c), is_t(c, "LITERAL"), is_t(c + 1, "BRACKET_RIGHT"))
 
     def tree_stop(E, v, o):
@@ -364,13 +379,14 @@ def register_core(R):
         return z3.And(r == H(o, "n") + 1, r <= H(v, "n"), z3.Select(H(v, "kind"), r) == X.at("ROOT"), z3.Select(H(v, "par"), r) == 0,
                       z3.ForAll([j], z3.Implies(z3.And(j > r, j <= H(v, "n")), z3.And(pj >= r, pj <= H(v, "n")))))
 
-    R.add(P + "_parse", prop="C15", setup=lambda S: dict(self=parser_obj(S)),
+    R.add(P + "_parse", prop="C15", setup=lambda S: dict(self=parser_obj(S), __ghost__=REMAINING),
           requires=[WF, ("called-on-a-fresh-parser", lambda E, v, o: cur(v) == 0)], modifies=["self"], returns="ref", raises=REJ,
           lemmas=[k0_def],
           ensures=[WF, FRAME, TIP_KEPT,
                    ("returns-only-after-the-close-matching-the-first-open-at-depth-0-inside-the-stream", parse_done),
                    ("result-is-a-fresh-ROOT-and-all-new-nodes-hang-below-it", parse_root)],
-          loops={0: dict(invariant=[WF, FRAME, TIP_KEPT, ("inside-the-outer-brackets", parse_inv), ("root-is-the-fresh-ROOT", root_inv)])},
+          loops={0: dict(invariant=[WF, FRAME, TIP_KEPT, ("inside-the-outer-brackets", parse_inv), ("root-is-the-fresh-ROOT", root_inv)],
+                         decreases="remaining(self)")},
           notes="a document that ends before the final ')' cannot make _parse return normally: the normal exit needs a ')' token INSIDE the stream at depth 1")
 
     # ------------------------------------------------------------------- parse
